@@ -70,23 +70,33 @@ def _r072_mbp(ctx: Ctx) -> None:
     gp = ci.methods.get('get_probabilities')
     ctx.need(gp is not None, 'R07.2', site_of(mi, ci.node), 'MBP.get_probabilities not found')
 
+    asked = []
+
     class H(Hooks):
         def call(self, it, func, args, kwargs, node, env):
             if isinstance(func, BoundMethod) and func.closure.fn.name == 'probability_distribution':
+                asked.append((args[0] if args else kwargs.get('code'), args[1] if len(args) > 1 else kwargs.get('error_rate')))
                 return tuple(Event({p}) for p in PAULIS)
             return NOT_HANDLED
     it = Interp(m, H())
 
     def thunk():
+        asked.clear()
         o = Obj(ci, 'decoder')
         o.fields['error_model'] = Obj(m.cls('PauliErrorModel'), 'error_model')
         o.fields['code'] = Sym('code')
-        return it.call_closure(Closure(gp, mi, ci), [], {}, gp, self_obj=o)
+        o.fields['error_rate'] = Sym('error_rate')
+        return it.call_closure(Closure(gp, mi, ci), [], {}, gp, self_obj=o), list(asked)
     outs = guard('R07.2', mi, gp)(lambda: it.explore(thunk))
-    v = outs[0].value if len(outs) == 1 and outs[0].kind == 'return' else None
+    v, calls = outs[0].value if len(outs) == 1 and outs[0].kind == 'return' else (None, [])
     want = tuple(Event({p}) for p in PAULIS)
     ctx.ob('R07.2', site_of(mi, gp), 'MBP.get_probabilities returns (p_I,p_X,p_Y,p_Z) in that order', v == want,
            f'returns {v!r}', key='MemoryBeliefPropagationDecoder.get_probabilities|order', facts=repr(v))
+    ok_rate = len(calls) == 1 and calls[0][0] == Sym('code') and calls[0][1] == Sym('error_rate')
+    ctx.ob('R07.2', site_of(mi, gp), 'MBP channel prior is the distribution of the decoder\'s own code and error rate', ok_rate,
+           f'probability_distribution is asked for (code, error rate) = {calls!r}; the decoder was constructed with '
+           f'(code, error_rate): its channel prior does not depend on the error rate it is given',
+           key='MemoryBeliefPropagationDecoder.get_probabilities|rate', facts=repr(calls))
     init = ci.methods['__init__']
     stacks = [n for n in ast.walk(init) if isinstance(n, ast.Call) and ast.unparse(n.func) in ('np.vstack', 'np.array', 'np.stack')
               and n.args and isinstance(n.args[0], (ast.List, ast.Tuple)) and len(n.args[0].elts) == 4]
